@@ -487,9 +487,9 @@ func (ex *Exec) runPath(h *ssa.Function) (end string) {
 			} else {
 				next = ev.t
 			}
-		} else if ex.explore && len(cands) > 1 {
-			next = cands[ex.schedChoose(len(cands))]
 		}
+		// when the running thread blocks or ends the lowest-numbered runnable thread continues
+		// (deterministic); reorderings are explored through the budgeted pre-emption points only.
 		cur = next
 	}
 }
